@@ -9,20 +9,25 @@
 (* configuration and dumps them; each is then given to the real            *)
 (* extrapolate_templates / pattern_replacing.                              *)
 EXTENDS Spil
-CONSTANTS MaxEntries, MaxX, MaxSel
+CONSTANTS MaxEntries, MaxX, MaxSel, SecondPair
 VARIABLES cfg
 vars == <<cfg>>
 
 \* hierarchies: basetype -> chain of placeholders.  'project' / 'type' prefixes are shared;
 \* "shot" has a key named like the basetype; "seq" has keys that contain one another.
-Chains == [asset |-> <<"{project}", "{type:a}", "{assettype}", "{asset}", "{task}">>,
+\* "asset2" is a second chain of the basetype asset that DIVERGES from the first one in the middle ({step} inserted):
+\* the same key names then occur at different depths of two extrapolated types
+Chains == [asset |-> <<"{project}", "{type:a}", "{assettype}", "{asset}", "{task}", "{version}">>,
+           asset2 |-> <<"{project}", "{type:a}", "{assettype}", "{asset}", "{step}", "{task}", "{version}">>,
            shot  |-> <<"{project}", "{type:s}", "{sequence}", "{shot}", "{task}">>,
            seq   |-> <<"{project}", "{type:q}", "{seq}", "{seqs}">>,
            project |-> <<"{project}">>]
 Bases == DOMAIN Chains
 \* the canonical name, the bare basetype (no separator), and a name that collides with a would-be generated one
-NameChoices(b, n) == {b \o Sep \o KeyOfPh(Chains[b][n]), b} \cup
-                     (IF n > 1 THEN {b \o Sep \o KeyOfPh(Chains[b][n - 1])} ELSE {})
+BaseName(b) == IF b = "asset2" THEN "asset" ELSE b
+NameChoices(b, n) == {BaseName(b) \o Sep \o KeyOfPh(Chains[b][n]), BaseName(b)} \cup
+                     (IF n > 1 THEN {BaseName(b) \o Sep \o KeyOfPh(Chains[b][n - 1])} ELSE {}) \cup
+                     (IF b = "asset2" THEN {"asset" \o Sep \o "file"} ELSE {})
 Entry(b, n, nm) == [name |-> nm, base |-> BaseOfName(nm), ph |-> SubSeq(Chains[b], 1, n)]
 Selectors == {"__", "shot", "t"}
 Pairs == { <<"{task}", "{task:(a|b)}">>, <<"{project}", "{project:(p|\\*)}">>, <<"{task:(a|b)}", "{task:(c)}">> }
@@ -39,7 +44,7 @@ MarkX == Cardinality(cfg.toX) < MaxX /\ cfg.kps = <<>> /\
 AddSel == Len(cfg.kps) < MaxSel /\ cfg.templates # <<>> /\
           \E s \in Selectors : (\A i \in DOMAIN cfg.kps : cfg.kps[i].sel # s) /\
           \E p \in Pairs : cfg' = [cfg EXCEPT !.kps = Append(@, [sel |-> s, pairs |-> <<p>>])]
-AddPair == cfg.kps # <<>> /\ Len(cfg.kps[Len(cfg.kps)].pairs) < 2 /\
+AddPair == SecondPair /\ cfg.kps # <<>> /\ Len(cfg.kps[Len(cfg.kps)].pairs) < 2 /\
            \E p \in Pairs : (\A i \in DOMAIN cfg.kps[Len(cfg.kps)].pairs : cfg.kps[Len(cfg.kps)].pairs[i][1] # p[1]) /\
               cfg' = [cfg EXCEPT !.kps[Len(cfg.kps)].pairs = Append(@, p)]
 Next == AddEntry \/ MarkX \/ AddSel \/ AddPair
